@@ -145,11 +145,32 @@ def write_tiling(fb, fn):
             if len(es) > 1:
                 ver[d] = 0
 
-        prev_end = None
-        first = True
-        last_write = None
-        for _, n in p.elems():
+        state = {"prev_end": None, "first": True, "last_write": None}
+        in_lambda = {y.get("id") for x in fn.nodes() if x.get("k") == "lambda" for y in walk(x.get("body", {}))}
+        lambdas = {}
+        for d, es in defs.items():
+            if len(es) == 1:
+                lm = strip_all_casts(es[0])
+                while lm.get("k") == "construct" and len(lm.get("args", [])) == 1:
+                    lm = strip_all_casts(lm["args"][0])
+                if lm.get("k") == "lambda":
+                    lambdas[d] = lm
+
+        def handle_(n, depth):
             k = n.get("k")
+            prev_end, first = state["prev_end"], state["first"]
+            if k == "call" and (n.get("callee") or {}).get("nm") == "operator()" and "obj" in n and strip_all_casts(n["obj"]).get("decl") in lambdas and depth < 2:
+                # a local lambda that writes through / moves a captured cursor: its statements run here with the arguments substituted
+                lm = lambdas[strip_all_casts(n["obj"])["decl"]]
+                mapping = {prm["decl"]: a for prm, a in zip(lm.get("params", []), n.get("args", []))}
+                stmts = lm["body"].get("body", []) if lm["body"].get("k") == "compound" else [lm["body"]]
+                for st in stmts:
+                    if st.get("k") in ("if", "while", "for", "do", "switch", "return"):
+                        out.append(("lambda@%s" % (n.get("loc") or "").split(":", 1)[-1], n.get("loc"), False, "",
+                                    "the helper lambda called here is not straight-line: its writes cannot be placed"))
+                        return
+                    handle_(facts.substitute(st, mapping), depth + 1)
+                return
             if k in ("assign", "cassign") and lvalue_root(n["l"]) in ver:
                 ver[lvalue_root(n["l"])] += 1
             elif k == "un" and n.get("op") in ("pre++", "post++", "pre--", "post--") and lvalue_root(n["e"]) in ver:
@@ -194,9 +215,9 @@ def write_tiling(fb, fn):
                                 (g.name.split("::")[-1], fmt(start), fmt(prev_end) if not first else "sizeof(Header)")))
                     sym = "after(%s@%s)" % (g.name.split("::")[-1], (n.get("loc") or "").split(":")[1] if n.get("loc") else n["id"])
                     pos[d] = {sym: 1, 1: 0}
-                    prev_end = pos[d]
-                    first = False
-                    last_write = n
+                    state["prev_end"] = prev_end = pos[d]
+                    state["first"] = first = False
+                    state["last_write"] = n
                 else:
                     pos[d] = lin(n["r"])
             elif k == "call" and callee_name(n) in WRITE_FUNCS and len(n.get("args", [])) == 3:
@@ -206,11 +227,11 @@ def write_tiling(fb, fn):
                 if ln is None or not inside(start):
                     dd = strip_all_casts(n["args"][di])
                     if dd.get("k") == "un" and dd.get("op") == "&":
-                        continue  # a write into a local object, not into the payload
+                        return  # a write into a local object, not into the payload
                     if start is not None and not any(k in ("D", "P") or str(k).startswith("after(") for k in start):
-                        continue
+                        return
                     out.append((key, n.get("loc"), False, "", "the position or length of this write is not a linear form over the operands (%s, %s)" % (fmt(start), fmt(ln))))
-                    continue
+                    return
                 if first:
                     want = {"D": 1, 1: hdr} if start.get("D") == 1 and hdr is not None else {"P": 1, 1: 0}
                     ok = eq(start, want)
@@ -221,9 +242,9 @@ def write_tiling(fb, fn):
                     out.append((key, n.get("loc"), ok, "starts at %s where the previous write ended" % fmt(start),
                                 "this write starts at %s but the previous one ended at %s: %s" %
                                 (fmt(start), fmt(prev_end), "the bytes in between keep whatever the buffer held / earlier bytes are overwritten")))
-                prev_end = add(start, ln)
-                first = False
-                last_write = n
+                state["prev_end"] = prev_end = add(start, ln)
+                state["first"] = first = False
+                state["last_write"] = n
             elif k == "call" and (n.get("callee") or {}).get("nm") == "resize" and fb.is_payload_buffer(n.get("obj", {})) and not first:
                 amount = lin(n["args"][0])
                 want = add(prev_end, {"D": 1}, -1) if prev_end is not None else None
@@ -235,6 +256,11 @@ def write_tiling(fb, fn):
                 key = "returns-end@%s" % (n.get("loc") or "").split(":", 1)[-1]
                 out.append((key, n.get("loc"), eq(rv, prev_end), "returns %s, the end of its last write" % fmt(rv),
                             "returns position %s but its last write ended at %s" % (fmt(rv), fmt(prev_end))))
+        for _, n in p.elems():
+            if n.get("id") in in_lambda:
+                continue
+            handle_(n, 0)
+        prev_end, first, last_write = state["prev_end"], state["first"], state["last_write"]
         # the sizing resize that precedes the writes must equal the end of the last write when nothing resizes afterwards
         if not first and not ptr_params:
             sizes = [c for c in p.calls("std::vector::resize") if fb.is_payload_buffer(c.get("obj", {}))]
@@ -568,17 +594,24 @@ def run(ctx):
               "the string length written to the payload is not even on every path (parity per path: %s)" % sorted(pars))
     # trailing write from a zero-initialised array covering length - size
     tail = None
+    tail_src = None
     for c in fs.calls():
-        if callee_name(c) in ("memcpy", "memset", "std::memcpy", "std::memset") and len(c.get("args", [])) == 3:
-            ln = strip_all_casts(c["args"][2])
+        args = c.get("args", [])
+        direct = callee_name(c) in ("memcpy", "memset", "std::memcpy", "std::memset") and len(args) == 3
+        via_lambda = (c.get("callee") or {}).get("nm") == "operator()" and len(args) >= 2  # a local append-style helper (placed by C13-R3)
+        if not (direct or via_lambda):
+            continue
+        for i, a in enumerate(args):
+            ln = strip_all_casts(a)
             if ln.get("k") == "bin" and ln.get("op") == "-" and lenv in reads(ln) and strp in reads(ln):
                 tail = c
+                tail_src = args[1] if direct else next((x for j, x in enumerate(args) if j != i), None)
     zero_src = False
     if tail is not None:
-        if callee_name(tail).endswith("memset"):
+        if (callee_name(tail) or "").endswith("memset"):
             zero_src = const_value(tail["args"][1]) == 0
         else:
-            src = strip_all_casts(tail["args"][1])
+            src = strip_all_casts(tail_src) if tail_src is not None else {}
             if src.get("k") == "ref":
                 for n in fs.nodes():
                     if n.get("k") == "decl":
